@@ -566,6 +566,21 @@ ADAPTORS = {
     "std::slice::<impl [T]>::sort_unstable_by_key": {"f": 1, "params": {2: [(0, ("$item",))]}, "result": []},
 }
 
+# futures whose output is the next item of the stream / channel argument:
+# result[($out,)+rest] >= arg[i][($item,)+rest]
+NEXT_ITEM_FUTURE = {
+    "futures::StreamExt::next": 0,
+    "tokio::sync::mpsc::Receiver::<T>::recv": 0,
+    "tokio::sync::mpsc::UnboundedReceiver::<T>::recv": 0,
+    "futures::TryStreamExt::try_next": 0,
+}
+
+# container writes: the items of the container include the pushed value
+PUSH_FNS_FLOW = {
+    "std::vec::Vec::<T, A>::push": 1, "std::collections::VecDeque::<T, A>::push_back": 1,
+    "std::collections::VecDeque::<T, A>::push_front": 1, "std::vec::Vec::<T, A>::insert": 2,
+}
+
 # container reads: result >= arg0[$item] stripped (element of collection)
 ELEMENT_OF = {
     "std::ops::Index::index", "std::ops::IndexMut::index_mut",
@@ -707,6 +722,14 @@ class Flow:
         if mode == "taint":
             for kind, bb, si, x in get_defs(body).through.get(local, []):
                 res |= self._rvalue(body, x["rv"], (), mode, bb, si)
+        if path and path[0] == "$item":
+            # values pushed into this container in the same body
+            for cbb, t in body.calls():
+                p_ = callee_path(t)
+                if p_ in PUSH_FNS_FLOW and t["args"] and t["args"][0]["k"] != "const":
+                    a0 = strip_refs(expr_operand(body, t["args"][0]))
+                    if a0 == E(("local", local)) or a0 == E(("arg", local)):
+                        res |= self._q_operand(body, t["args"][PUSH_FNS_FLOW[p_]], path[1:], mode)
         return res
 
     def _rvalue(self, body, rv, rest, mode, bb, si):
@@ -814,6 +837,8 @@ class Flow:
         if path == "std::clone::Clone::clone" and (c.get("self_ty") or {}).get("s", "").startswith(("std::vec::Vec<", "[")):
             # cloning a collection makes a fresh copy: an allocation site of its own
             return {Src(("alloc", body.id, bb, tuple(rest), path))}
+        if path.endswith("::then_some") and len(args) == 2:
+            return self._q_operand(body, args[1], rest, mode)
         if path in TRANSPARENT:
             i = TRANSPARENT[path]
             if i is None:
@@ -826,6 +851,10 @@ class Flow:
             return self._q_operand(body, args[OUTPUT_OF[path]], ("$out",) + tuple(rest), mode)
         if path in ITEM_OF:
             return self._q_operand(body, args[ITEM_OF[path]], ("$item",) + tuple(rest), mode)
+        if path in NEXT_ITEM_FUTURE:
+            if rest and rest[0] == "$out":
+                return self._q_operand(body, args[NEXT_ITEM_FUTURE[path]], ("$item",) + tuple(rest[1:]), mode)
+            return {Src(("alloc", body.id, bb, tuple(rest), path))}
         if path in FUTURE_TRANSPARENT:
             if rest and rest[0] == "$out":
                 return self._q_operand(body, args[FUTURE_TRANSPARENT[path]], rest[1:], mode)
